@@ -586,6 +586,9 @@ func (o *Obligation) query(withModel bool) (string, error) {
 		b.WriteString("(assert (not " + o.Goal + "))\n")
 	}
 	b.WriteString("(check-sat)\n")
+	if withModel && len(o.Show) == 0 && !o.Cover {
+		o.Show = o.modelTerms() // inputs of a replayable function: their values make the counterexample
+	}
 	if withModel && len(o.Show) > 0 {
 		b.WriteString("(get-value (" + strings.Join(o.Show, " ") + "))\n")
 	}
